@@ -534,6 +534,90 @@ fn mutate_type(r: &mut Report, t: &XmlType, g: &mut Rng, sch: &HashMap<&'static 
     }
 }
 
+/// The same rules at the front door: request bodies of operations whose XML payload is required or optional, sent through
+/// S3Service::call (http/de.rs take_xml_body / take_opt_xml_body + expect_eof sit between the request and the codec).
+/// A well-formed body must reach the backend; a body that is not a well-formed document of the type must be answered with
+/// a client error and no backend call; well-formed variants that mean the same must reach the backend with the same input.
+fn front_door(r: &mut Report) {
+    use crate::engine::{RawRequest, SvcCfg, backend_events, new_runtime, run_once};
+    let rt = new_runtime();
+    let ops: &[(&str, &str, &str, &str)] = &[
+        ("PutBucketTagging", "PUT", "/fd-bucket?tagging", "<Tagging><TagSet><Tag><Key>k</Key><Value>v</Value></Tag></TagSet></Tagging>"),
+        ("CreateBucket", "PUT", "/fd-bucket", "<CreateBucketConfiguration><LocationConstraint>eu-west-1</LocationConstraint></CreateBucketConfiguration>"),
+        ("CompleteMultipartUpload", "POST", "/fd-bucket/k?uploadId=u1", "<CompleteMultipartUpload><Part><PartNumber>1</PartNumber><ETag>\"e\"</ETag></Part></CompleteMultipartUpload>"),
+        ("PutObjectLegalHold", "PUT", "/fd-bucket/k?legal-hold", "<LegalHold><Status>ON</Status></LegalHold>"),
+        ("PutObjectRetention", "PUT", "/fd-bucket/k?retention", "<Retention><Mode>GOVERNANCE</Mode><RetainUntilDate>2030-01-01T00:00:00Z</RetainUntilDate></Retention>"),
+        ("PutBucketVersioning", "PUT", "/fd-bucket?versioning", "<VersioningConfiguration><Status>Enabled</Status></VersioningConfiguration>"),
+        ("PutObjectTagging", "PUT", "/fd-bucket/k?tagging", "<Tagging><TagSet><Tag><Key>a</Key><Value>1</Value></Tag></TagSet></Tagging>"),
+        ("PutBucketLifecycleConfiguration", "PUT", "/fd-bucket?lifecycle", "<LifecycleConfiguration><Rule><ID>r</ID><Status>Enabled</Status><Filter><Prefix>p</Prefix></Filter><Expiration><Days>1</Days></Expiration></Rule></LifecycleConfiguration>"),
+        ("PutObjectLockConfiguration", "PUT", "/fd-bucket?object-lock", "<ObjectLockConfiguration><ObjectLockEnabled>Enabled</ObjectLockEnabled></ObjectLockConfiguration>"),
+        ("RestoreObject", "POST", "/fd-bucket/k?restore", "<RestoreRequest><Days>1</Days></RestoreRequest>"),
+    ];
+    let send = |method: &str, uri: &str, body: &[u8]| {
+        let mut req = RawRequest::new(method, uri).header("host", "h.example").header("content-length", &body.len().to_string());
+        req.body = body.to_vec();
+        let (out, events) = run_once(&rt, &SvcCfg::default(), None, &req);
+        let be: Vec<(String, String)> = backend_events(&events).iter().map(|b| (b.op.to_owned(), b.input.debug())).collect();
+        (out, be)
+    };
+    for (op, method, uri, doc) in ops {
+        let (out0, be0) = send(method, uri, doc.as_bytes());
+        if be0.len() != 1 || be0[0].0 != *op {
+            // the plain document is not accepted for this operation on this tree: nothing to compare with
+            r.inconclusive(format!("front door: the plain {op} document does not reach the backend ({})", out0.class()));
+            continue;
+        }
+        let same: Vec<(&str, Vec<u8>)> = vec![
+            ("trailing-xml-whitespace", format!("{doc}\n \t\r\n").into_bytes()),
+            ("leading-xml-whitespace", format!("\n  {doc}").into_bytes()),
+            ("declaration", format!("<?xml version=\"1.0\" encoding=\"UTF-8\"?>{doc}").into_bytes()),
+            ("comment-after-root", format!("{doc}<!-- c -->").into_bytes()),
+            ("byte-order-mark", [&[0xef, 0xbb, 0xbf][..], doc.as_bytes()].concat()),
+        ];
+        for (name, body) in same {
+            let (out, be) = send(method, uri, &body);
+            if be.is_empty() {
+                // a well-formed variant may be refused, but then with a client error
+                if out.response().is_some_and(|x| (400..500).contains(&x.status)) {
+                    r.held(format!("front-door/{op}/same-meaning/{name}/refused"));
+                } else {
+                    r.violated(format!("C13/front-door/{name}/neither-accepted-nor-client-error"), json!({"kind": "front-door", "op": op, "variant": name, "outcome": out.to_json()}));
+                }
+            } else if be == be0 {
+                r.held(format!("front-door/{op}/same-meaning/{name}/same-input"));
+            } else {
+                r.violated(format!("C13/front-door/meaning-changed/{name}"), json!({"kind": "front-door", "op": op, "variant": name, "plain": be0, "got": be}));
+            }
+        }
+        let mut bad: Vec<(String, Vec<u8>)> = Vec::new();
+        for (bname, blank) in [("form-feed", &b"\x0c"[..]), ("vertical-tab", &b"\x0b"[..]), ("nbsp", &b"\xc2\xa0"[..]), ("nel", &b"\xc2\x85"[..]), ("ideographic-space", &b"\xe3\x80\x80"[..]), ("zero-width-space", &b"\xe2\x80\x8b"[..]), ("nul", &b"\x00"[..])] {
+            bad.push((format!("{bname}-after-root"), [doc.as_bytes(), blank].concat()));
+            bad.push((format!("{bname}-before-root"), [blank, doc.as_bytes()].concat()));
+            bad.push((format!("{bname}-after-root-amid-whitespace"), [doc.as_bytes(), b"\n", blank, b"\n"].concat()));
+        }
+        bad.push(("text-after-root".into(), format!("{doc}junk").into_bytes()));
+        bad.push(("text-before-root".into(), format!("junk{doc}").into_bytes()));
+        bad.push(("element-after-root".into(), format!("{doc}<Extra/>").into_bytes()));
+        bad.push(("second-root-copy".into(), format!("{doc}{doc}").into_bytes()));
+        bad.push(("character-reference-after-root".into(), format!("{doc}&#32;").into_bytes()));
+        bad.push(("truncated".into(), doc.as_bytes()[..doc.len() - 3].to_vec()));
+        bad.push(("invalid-utf8-after-root".into(), [doc.as_bytes(), &b"\xff"[..]].concat()));
+        bad.push(("bom-after-root".into(), [doc.as_bytes(), &[0xef, 0xbb, 0xbf][..]].concat()));
+        for (name, body) in bad {
+            let (out, be) = send(method, uri, &body);
+            let client_error = out.response().is_some_and(|x| (400..500).contains(&x.status));
+            if be.is_empty() && client_error {
+                r.held(format!("front-door/{op}/refused/{}", name.split('-').next().unwrap_or("")));
+            } else {
+                r.violated(
+                    format!("C13/front-door/accepted/{name}"),
+                    json!({"kind": "front-door", "op": op, "variant": name, "body": show_bytes(&body), "backend": be.iter().map(|b| b.0.clone()).collect::<Vec<_>>(), "outcome": out.to_json()}),
+                );
+            }
+        }
+    }
+}
+
 /// ill-formed documents built deliberately (each operator is a named class)
 fn ill_formed(r: &mut Report, t: &XmlType, seed: u64) {
     let Some((bytes, _)) = roundtrip(r, t, seed, Presence::Full) else { return };
@@ -687,6 +771,7 @@ pub fn run(ctx: &RunCtx) -> i32 {
         }
         random_bytes(r, t, &mut g, (reps * 8) as usize);
     });
+    front_door(&mut total);
     // serialize-only root types: well-formedness for the independent reader
     let ser_only = xml_ser_only_types();
     for t in &ser_only {
@@ -712,6 +797,11 @@ pub fn run(ctx: &RunCtx) -> i32 {
 pub fn replay(v: &Value) -> i32 {
     let w = &v["witness"];
     let mut r = Report::new();
+    if w["kind"] == "front-door" {
+        // the leg is a fixed list of requests: it is run again as a whole
+        front_door(&mut r);
+        return super::replay_verdict("C13", &r);
+    }
     let types = xml_types();
     let tname = w["type"].as_str().unwrap_or("");
     let Some(t) = types.iter().find(|t| t.name == tname) else { harness_error(&format!("C13 replay: unknown type {tname}")) };
